@@ -1,26 +1,31 @@
 import JL.Generated.Fns
+import JL.Lemmas.TieAuto
 import JL.Tie.split_sign
 import JL.Tie.radix_literal
+import JL.Tie.decimal_literal_len
 import JL.Lemmas.TieA
 /-! tie: `str_to_number`, as translated from the crate's current source, is the model's function - for every input -/
 namespace JL.Tie
 open JL
+set_option linter.unusedSimpArgs false
 
 theorem trim_matches_ws (s : Str) : Rs.trim_matches s JsOp.isJsWhitespace = JsOp.trimBoth s := by
   simp [rs, JsOp.trimBoth, JsOp.trimEnd, JsOp.trimStart]
 
+/-! the byte-length test of the code is the character-count test of the model (`TieA.literal_len_bytes`), in the spellings
+`a == b`, `b == a`, before and after the unfolding of `==` and `len` -/
+theorem lit_len_eq (u : Str) : Rs.eq (JsOp.decimalLiteralLen u) (Rs.len u) = (JsOp.decimalLiteralLen u == u.length) :=
+  JL.Lemmas.TieA.literal_len_bytes_beq u
+theorem lit_len_eq' (u : Str) : Rs.eq (Rs.len u) (JsOp.decimalLiteralLen u) = (JsOp.decimalLiteralLen u == u.length) := by
+  rw [← lit_len_eq]; simp only [rs]; exact Bool.beq_comm
+theorem lit_len_beq (u : Str) :
+    (JsOp.decimalLiteralLen u == (u.map Rs.utf8Len).sum) = (JsOp.decimalLiteralLen u == u.length) := lit_len_eq u
+theorem lit_len_beq' (u : Str) :
+    ((u.map Rs.utf8Len).sum == JsOp.decimalLiteralLen u) = (JsOp.decimalLiteralLen u == u.length) := lit_len_eq' u
+
 theorem str_to_number (s : Str) : Gen.str_to_number s = JsOp.strToNumber s := by
-  unfold Gen.str_to_number JsOp.strToNumber
-  simp only [split_sign, trim_matches_ws, radix_literal]
-  generalize JsOp.trimBoth s = t
-  generalize JsOp.splitSign t = p
-  obtain ⟨neg, u⟩ := p
-  have hlen := JL.Lemmas.TieA.literal_len_bytes_beq u
-  simp only [rs] at hlen ⊢
-  simp only [hlen]
-  cases hr : JsOp.radixLiteral t <;> cases ht : t.isEmpty <;> cases hi : (u == "Infinity".toList)
-    <;> cases hc : (!u.isEmpty && JsOp.decimalLiteralLen u == u.length)
-    <;> cases hp : JsOp.rustParseF64 u
-    <;> simp_all
+  tie_close [Gen.str_to_number, JsOp.strToNumber, split_sign, radix_literal, decimal_literal_len, ↓trim_matches_ws,
+      ↓lit_len_eq, ↓lit_len_eq', lit_len_beq, lit_len_beq']
+    splitting JsOp.radixLiteral JsOp.splitSign JsOp.rustParseF64
 
 end JL.Tie
